@@ -1,8 +1,8 @@
 (* C02 -- Function signatures equal CPython's view of the same definition.
    Property theorems only: each closed by [exact] of a lemma from Proofs/, followed by Print Assumptions. *)
 From Coq Require Import List ZArith String Bool Arith.
-From Verif Require Import Lib.Sexp Model.C02_kinds Gen.C02_tables Model.C02_params Model.C02_container Model.C02_scope Model.C02_tree Model.C02_flow
-  Proofs.C02_params Proofs.C02_container Proofs.C02_scope Proofs.C02_tree Proofs.C02_flow.
+From Verif Require Import Lib.Sexp Model.C02_kinds Gen.C02_tables Model.C02_params Model.C02_container Model.C02_scope Model.C02_tree Model.C02_flow Model.C02_multi
+  Proofs.C02_params Proofs.C02_container Proofs.C02_scope Proofs.C02_tree Proofs.C02_flow Proofs.C02_multi.
 Import ListNotations.
 Open Scope list_scope. Open Scope nat_scope.
 
@@ -370,3 +370,26 @@ Theorem C02_flow_insensitive_visit_agrees_with_cpython :
                    (attached n (combine (live_items its) (live_log its (visit_log (all_items its) s0)))).
 Proof. exact flow_insensitive_visit_agrees_with_cpython. Qed.
 Print Assumptions C02_flow_insensitive_visit_agrees_with_cpython.
+
+(* ===== several function objects; stub-merged signatures ===== *)
+
+(* Containers of different functions never influence one another: after any history of operations addressed to any
+   of them, container j holds what its own operations alone make of it. *)
+Theorem C02_containers_independent :
+  forall ios st j l, nth_error st j = Some l ->
+  nth_error (snd (run_multi st ios)) j = Some (snd (run_ops c_step l (ops_for j ios))).
+Proof. exact containers_independent. Qed.
+Print Assumptions C02_containers_independent.
+
+(* Merging a stub signature keeps names, order, kinds and defaults of the definition, for all lists ... *)
+Theorem C02_merge_keeps_shape :
+  forall stub impl, map shape (merge_stub_parameters impl stub) = map shape impl.
+Proof. exact merge_keeps_shape. Qed.
+Print Assumptions C02_merge_keeps_shape.
+
+(* ... and annotates every parameter as the stub annotates the parameter of that NAME, whatever lengths and orders. *)
+Theorem C02_merge_is_by_name :
+  forall stub impl, nodupb (names_of impl) = true -> nodupb (names_of stub) = true ->
+  merge_stub_parameters impl stub = merged_spec impl stub.
+Proof. exact merge_is_by_name. Qed.
+Print Assumptions C02_merge_is_by_name.
